@@ -323,9 +323,14 @@ def oracle(sc, r):
         else:
             bad.append(("outcome", f"run ended with {out}, allowed {sorted(allowed)}"))
     elif injected and out == "returned" and injected == ["cancel"] and not r["limited"] and hflavour not in ("stops", "raises-stop") \
-            and not any(f in ("init", "main0", "main1", "mainret") for f in fails) and kind == "rt":
-        # a cancelled realtime run that nobody stopped must not pretend it returned normally
-        bad.append(("cancel-swallowed", "run() returned normally although the caller cancelled it and nobody stopped it"))
+            and not any(f in ("init", "main0", "main1", "mainret") for f in fails):
+        # a cancelled run that nobody stopped must not pretend it returned normally. (Backtesting: unless everything had
+        # been handled already, i.e. the cancellation arrived when the run was over anyway.)
+        c = r["counts"]
+        unfinished = kind == "rt" or c.get("ha", 0) < nev * n or c.get("job", 0) < njobs
+        if unfinished and hdur < 1:
+            bad.append(("cancel-swallowed", "run() returned normally although the caller cancelled it before it was over "
+                        "and nobody stopped it"))
     # promptness: handlers in flight are cancelled, not awaited
     if r["inj_time"] is not None and out in ("returned", "cancelled", "producer-error"):
         if r["end_time"] - r["inj_time"] > 1.0:
